@@ -12,9 +12,10 @@ def splErrName : SplErr → String
 def semis (s : String) : List String :=
   if s.trimAscii.toString == "" then [] else (s.splitOn ";").map (fun t => t.trimAscii.toString)
 
-def parseNatRows (s : String) : Option (List (List Nat)) := (semis s).mapM parseNats
-def parseIntRows (s : String) : Option (List (List Int)) := (semis s).mapM parseInts
-def showNatRows (r : List (List Nat)) : String := ";".intercalate (r.map showNats)
+/-- rows are `;`-separated, an empty row is written `_`, no rows at all is the empty string -/
+def parseNatRows (s : String) : Option (List (List Nat)) := (semis s).mapM fun t => if t == "_" then some [] else parseNats t
+def parseIntRows (s : String) : Option (List (List Int)) := (semis s).mapM fun t => if t == "_" then some [] else parseInts t
+def showNatRows (r : List (List Nat)) : String := ";".intercalate (r.map fun x => if x.isEmpty then "_" else showNats x)
 
 def parseBool (s : String) : Option Bool :=
   if s == "1" then some true else if s == "0" then some false else none
@@ -41,11 +42,6 @@ def parseDim (s : String) : Option (Nat × Nat × Int × Option (List Nat) × Bo
       else (parseNats m).map fun m => (p, n, c, some m, per)
     | _, _, _, _ => none
   | _ => none
-
-def buildDim (d : Nat × Nat × Int × Option (List Nat) × Bool) : Except SplErr SDim := do
-  let (p, n, c, m, per) := d
-  let mm ← resolveMults p n c m
-  splineDim p n mm per
 
 def handle (line : String) : String :=
   match fields line with
